@@ -114,6 +114,7 @@ func TestVerif_C14_FailedWrite(t *testing.T) {
 		default:
 			tg.hasCas, tg.cas = true, cur+1 // refused
 		}
+		tg.optShape = c14GenOptShape(rt)
 		c.target = tg
 		upTo := cur + 2
 
@@ -243,7 +244,7 @@ func TestVerif_C14_FailedWrite(t *testing.T) {
 			cls += "/write"
 		}
 		rec.Class(fmt.Sprintf("write-storage-ops=%02d", nOps), 1)
-		if stAfter.paths[0].cur > 0 && stAfter.paths[0].cur-stAfter.paths[0].effMax() >= 1 && wouldSucceed {
+		if stAfter.paths[0].cur > 0 && stAfter.paths[0].cur-stAfter.paths[0].effMax(stAfter.cfgMax) >= 1 && wouldSucceed {
 			rec.Class("write-prunes-versions", 1)
 		}
 		rec.Case(cls, wouldSucceed, verifx.Digest(c.transactional, c14Strings(c.setup), tg.String(), ks), func() any {
